@@ -88,10 +88,13 @@ def run_history(case):
                     h, e = m.header.hop_by_hop, m.header.end_to_end
                     if h in hbh:
                         vs.append(V("Hop-by-Hop identifiers of header-less requests are pairwise distinct", "reuse/hop-by-hop",
-                                    f"step {step} ({k}): {h.hex()} already used at request #{hbh.index(h) + 1}"))
+                                    f"step {step} ({k}): {h!r} already used at request #{hbh.index(h) + 1}"))
                     if e in e2e:
                         vs.append(V("End-to-End identifiers of header-less requests are pairwise distinct", "reuse/end-to-end",
-                                    f"step {step} ({k}): {e.hex()} already used at request #{e2e.index(e) + 1}"))
+                                    f"step {step} ({k}): {e!r} already used at request #{e2e.index(e) + 1}"))
+                    if not (isinstance(h, bytes) and len(h) == 4 and isinstance(e, bytes) and len(e) == 4):
+                        vs.append(V("every header-less request receives a Hop-by-Hop and an End-to-End identifier", "identifier-missing",
+                                    f"step {step} ({k}): hop_by_hop={h!r} end_to_end={e!r}"))
                     hbh.append(h)
                     e2e.append(e)
                     if not m.header.is_request():
